@@ -10,6 +10,7 @@ from .common import public_functions, construct, fsite, csite, handle_type, dire
 from .c13 import enum_paths, const_of
 from .ctr import ctr_backends
 from . import c05, c10
+from .routing_rules import helpers as RH
 
 TITLE = ("The algebraic fact (xor-out/xor-in equals a fresh schedule) needs linearity of the TK1 schedule and is not decided. "
          "Decided, all necessary: (R1) shadow-tweak protocol in set_tweak: the bytes handed to the first xor pass are a copy "
@@ -177,6 +178,11 @@ def run_config(ctx, rep, cfg):
             if xs:
                 x = prog.resolve(f.unit, xs[0]["callee"][1])
                 xcallees = {i["callee"][1] for i in direct_calls(x) if prog.resolve(x.unit, i["callee"][1]) is not None}
+                # the tweakey permutation is the callee that is a pure bit routing (E7b); other helpers (a shared
+                # unpack routine before the loop) are not part of the per-round step
+                perms = {k[1] for k, h in RH(prog).items() if h["table"] is not None and k[0] == x.unit}
+                if xcallees & perms:
+                    xcallees &= perms
                 setters = [g for g in prog.defined() if g.unit == x.unit and g is not x and
                            any(i["callee"][1] in xcallees for i in direct_calls(g)) and len(g.params) == 4]
                 inl = [i for i in x.all_insts() if i["op"] == "call" and i["callee"][0] == "f" and i["callee"][1] in xcallees]
